@@ -11,15 +11,20 @@
  * OC = __CPROVER_old(self->_cur) (cursor on entry); GS = arbitrary ghost position ("for every position ..."). */
 #ifndef XML_CURSOR_CONTRACTS_H
 #define XML_CURSOR_CONTRACTS_H
-size_t GS;   /* arbitrary ghost position in the input: "for every position GS ..." without a quantifier */
+/* ghosts (besides GS/GSC of iora_xml.h): GLEN = length of the C-string argument of matchString/matchWordCaseInsensitive;
+ * GSC1..3 = the input bytes behind GS (readUntil compares up to 4 bytes); each is DEFINED by the precondition that uses it */
+size_t GLEN; char GSC1; char GSC2; char GSC3;
+/* matchString/matchWordCaseInsensitive: GWC = word byte at the arbitrary index GK, GIC = input byte at cursor+GK.
+ * Both DEFINED by the precondition of the proof that uses them. */
+char GWC; char GIC;
 
 /* ---- C-string arguments of matchString/matchWordCaseInsensitive: NUL within the first 8 bytes (all call sites pass literals of
  *      2 and 7 characters); loop-free strlen and prefix comparison ---- */
 #define XML_SLEN(s) ((s)[0] == 0 ? (size_t)0 : (s)[1] == 0 ? (size_t)1 : (s)[2] == 0 ? (size_t)2 : (s)[3] == 0 ? (size_t)3 : (s)[4] == 0 ? (size_t)4 \
                     : (s)[5] == 0 ? (size_t)5 : (s)[6] == 0 ? (size_t)6 : (s)[7] == 0 ? (size_t)7 : (size_t)8)
 #define XML_EQ(a, b) ((a) == (b))
-#define XML_LOWER(c) (((c) >= (char)65 && (c) <= (char)90) ? (char)((c) + 32) : (c))
-#define XML_CIEQ(a, b) (XML_LOWER(a) == XML_LOWER(b))
+/* ASCII-case-insensitive equality: equal, or the same letter in different case (differ exactly in bit 5 and are letters) */
+#define XML_CIEQ(a, b) ((a) == (b) || ((((a) ^ (b)) == 32) && ((a) | 32) >= 97 && ((a) | 32) <= 122))
 /* the first i (<= 7) bytes of the input at `base` equal s[0..i) under EQ */
 #define XML_PFX(slf, base, s, i, EQ) ( ((i) <= 0 || EQ(XML_AT(slf, (base) + 0), (s)[0])) && ((i) <= 1 || EQ(XML_AT(slf, (base) + 1), (s)[1])) \
   && ((i) <= 2 || EQ(XML_AT(slf, (base) + 2), (s)[2])) && ((i) <= 3 || EQ(XML_AT(slf, (base) + 3), (s)[3])) && ((i) <= 4 || EQ(XML_AT(slf, (base) + 4), (s)[4])) \
@@ -33,6 +38,12 @@ size_t GS;   /* arbitrary ghost position in the input: "for every position GS ..
 #define XML_SEQ_AT(slf, k, E) ((k) <= (slf)->_input.n && (E).n <= (slf)->_input.n - (k) && ((E).n < 1 || XML_AT(slf, k) == (E).p[0]) \
   && ((E).n < 2 || XML_AT(slf, (k) + 1) == (E).p[1]) && ((E).n < 3 || XML_AT(slf, (k) + 2) == (E).p[2]) && ((E).n < 4 || XML_AT(slf, (k) + 3) == (E).p[3]))
 
+
+/* the same at the ghost position GS, in terms of the ghost bytes */
+#define XML_SEQ_GS(slf, E) (GS <= (slf)->_input.n && (E).n <= (slf)->_input.n - GS && ((E).n < 1 || GSC == (E).p[0]) \
+  && ((E).n < 2 || GSC1 == (E).p[1]) && ((E).n < 3 || GSC2 == (E).p[2]) && ((E).n < 4 || GSC3 == (E).p[3]))
+#define XML_GS_TAIL(slf) (GS < (slf)->_input.n ==> ((GS + 1 < (slf)->_input.n ==> GSC1 == XML_AT(slf, GS + 1)) && (GS + 2 < (slf)->_input.n ==> GSC2 == XML_AT(slf, GS + 2)) \
+  && (GS + 3 < (slf)->_input.n ==> GSC3 == XML_AT(slf, GS + 3))))
 
 #define OC __CPROVER_old(self->_cur)
 #define RV __CPROVER_return_value
@@ -75,23 +86,27 @@ size_t GS;   /* arbitrary ghost position in the input: "for every position GS ..
 /* S1 cursor monotone and <= n */
 #define SKIP_SAFE ENS(XML_CUR_INV(self) && self->_cur >= OC)
 /* S2 only white space is skipped; S3 all of it is skipped */
-#define SKIP_CONTENT ENS((GS >= OC && GS < self->_cur) ==> XML_IS_SPACE(XML_AT(self, GS))) \
-                     ENS(self->_cur == self->_input.n || !XML_IS_SPACE(XML_AT(self, self->_cur)))
+#define SKIP_CONTENT ENS((GS >= OC && GS < self->_cur) ==> XML_IS_SPACE(GSC)) \
+                     ENS((GS == self->_cur && GS < self->_input.n) ==> !XML_IS_SPACE(GSC))
 
 /* ---------------- matchString / matchWordCaseInsensitive ---------------- */
-#define DECL_match(sym, POST) bool sym(Parser *self, const char *s) __CPROVER_requires(XML_PRE(self) && XML_SLEN(s) <= 7) CUR_FRAME POST ;
+#define MATCH_PRE (XML_PRE(self) && XML_SLEN(s) <= 7 && GLEN == XML_SLEN(s) && (GK < GLEN ==> (GWC == s[GK] && (GK < self->_input.n - self->_cur ==> GIC == XML_AT(self, self->_cur + GK)))))
+#define DECL_match(sym, POST) bool sym(Parser *self, const char *s) __CPROVER_requires(MATCH_PRE) CUR_FRAME POST ;
 /* M1 invariant; M2 a match consumes exactly the word; M3 a mismatch consumes nothing */
-#define MATCH_SAFE ENS(XML_CUR_INV(self)) ENS(RV ==> self->_cur == OC + XML_SLEN(s)) \
+#define MATCH_SAFE ENS(XML_CUR_INV(self)) ENS(RV ==> self->_cur == OC + GLEN) \
                    ENS(!RV ==> (self->_cur == OC && self->_line == OLD(self->_line) && self->_col == OLD(self->_col)))
-/* M4 exact result: true iff the whole word is present at the cursor (nothing beyond the end is read to decide) */
-#define MATCH_EXACT ENS(RV == XML_MATCH(self, OC, s, XML_EQ))
-/* M5 exact result: ASCII-case-insensitive match followed by a PRESENT boundary byte (white space, '>' or '[') */
-#define MATCHWORD_EXACT ENS(RV == (XML_MATCH(self, OC, s, XML_CIEQ) && XML_BOUNDARY(self, OC + XML_SLEN(s))))
+/* M4 a reported match is real: the whole word is present at the cursor (GK = arbitrary index into the word, GWC/GIC the bytes there) */
+#define MATCH_SOUND ENS(RV ==> GLEN <= self->_input.n - OC) ENS((RV && GK < GLEN) ==> GIC == GWC)
+/* M5 a present word is reported (nothing beyond the end of the input is read to decide) */
+#define MATCH_COMPLETE ENS((GLEN <= self->_input.n - OC && XML_PFX(self, OC, s, GLEN, XML_EQ)) ==> RV)
+/* M6/M7 the same for the ASCII-case-insensitive word, which must be followed by a PRESENT boundary byte (white space, '>' or '[') */
+#define MATCHWORD_SOUND ENS(RV ==> (GLEN <= self->_input.n - OC && XML_BOUNDARY(self, OC + GLEN))) ENS((RV && GK < GLEN) ==> XML_CIEQ(GIC, GWC))
+#define MATCHWORD_COMPLETE ENS((GLEN <= self->_input.n - OC && XML_PFX(self, OC, s, GLEN, XML_CIEQ) && XML_BOUNDARY(self, OC + GLEN)) ==> RV)
 
 /* ---------------- readName ---------------- */
 #define DECL_readName(sym, POST) iora_sv sym(Parser *self) __CPROVER_requires(XML_PRE(self)) \
   __CPROVER_assigns(self->_cur, self->_line, self->_col, self->_hasError, self->_error) POST ;
-#define NAME_STARTS (OC < self->_input.n && XML_IS_NAMESTART(XML_AT(self, OC)))
+#define NAME_STARTS (OC < self->_input.n && XML_IS_NAMESTART(GOC))
 /* R1 cursor; R6 slice containment (general form) and limit: the returned view lies inside the input and is <= maxNameLength;
  * R7 an empty result is the null view; a non-empty result never comes with a new error */
 #define RNAME_SAFE ENS(XML_CUR_INV(self) && self->_cur >= OC) \
@@ -99,15 +114,15 @@ size_t GS;   /* arbitrary ghost position in the input: "for every position GS ..
                    ENS(RV.n == 0 ? RV.p == NULL : self->_hasError == OLD(self->_hasError))
 /* R2 no name here: empty view, nothing consumed, no error raised; R3 the scanned run is non-empty, consists of name characters, is maximal */
 #define RNAME_RUN ENS(!NAME_STARTS ==> (RV.n == 0 && self->_cur == OC && self->_hasError == OLD(self->_hasError))) \
-                  ENS(NAME_STARTS ==> (self->_cur > OC && (self->_cur == self->_input.n || !XML_IS_NAMECHAR(XML_AT(self, self->_cur))))) \
-                  ENS((NAME_STARTS && GS >= OC && GS < self->_cur) ==> XML_IS_NAMECHAR(XML_AT(self, GS)))
+                  ENS(NAME_STARTS ==> self->_cur > OC) ENS((NAME_STARTS && GS == self->_cur && GS < self->_input.n) ==> !XML_IS_NAMECHAR(GSC)) \
+                  ENS((NAME_STARTS && GS >= OC && GS < self->_cur) ==> XML_IS_NAMECHAR(GSC))
 /* R4 exact slice: the returned view IS the scanned input range when it is within the limit; R5 limit exceeded => error flag and empty view */
 #define RNAME_SLICE ENS((NAME_STARTS && self->_cur - OC <= self->_opt.maxNameLength) ==> (XML_SLICE_IS(self, RV, OC, self->_cur - OC) && self->_hasError == OLD(self->_hasError))) \
                     ENS((NAME_STARTS && self->_cur - OC > self->_opt.maxNameLength) ==> (RV.n == 0 && self->_hasError))
 
 /* ---------------- readUntil ---------------- */
 #define DECL_readUntil(sym, POST) bool sym(Parser *self, iora_sv endSeq, size_t *startOut, size_t *lenOut) \
-  __CPROVER_requires(XML_PRE(self) && endSeq.n >= 1 && endSeq.n <= 4 && __CPROVER_is_fresh(endSeq.p, endSeq.n)) \
+  __CPROVER_requires(XML_PRE(self) && XML_GS_TAIL(self) && endSeq.n == 3 && __CPROVER_is_fresh(endSeq.p, endSeq.n)) \
   __CPROVER_requires(__CPROVER_is_fresh(startOut, sizeof(*startOut)) && __CPROVER_is_fresh(lenOut, sizeof(*lenOut))) \
   __CPROVER_assigns(self->_cur, self->_line, self->_col, *startOut, *lenOut) POST ;
 /* U1 cursor; U5a not found => nothing consumed */
@@ -116,14 +131,14 @@ size_t GS;   /* arbitrary ghost position in the input: "for every position GS ..
 #define UNTIL_SLICE ENS(RV ==> (*startOut == OC && *lenOut <= self->_input.n - OC && XML_SEQ_AT(self, OC + *lenOut, endSeq))) \
                     ENS(RV ==> self->_cur == OC + *lenOut + endSeq.n)
 /* U4 FIRST occurrence: the reported content does not contain the terminator; U5b false only if the terminator does not occur at all */
-#define UNTIL_FIRST ENS((RV && GS >= OC && GS < OC + *lenOut) ==> !XML_SEQ_AT(self, GS, endSeq)) \
-                    ENS((!RV && GS >= OC && GS < self->_input.n) ==> !XML_SEQ_AT(self, GS, endSeq))
+#define UNTIL_FIRST ENS((RV && GS >= OC && GS < OC + *lenOut) ==> !XML_SEQ_GS(self, endSeq)) \
+                    ENS((!RV && GS >= OC && GS < self->_input.n) ==> !XML_SEQ_GS(self, endSeq))
 
 /* ---------------- readQuotedValue ---------------- */
 #define DECL_readQuotedValue(sym, POST) bool sym(Parser *self, iora_sv *out) __CPROVER_requires(XML_PRE(self) && __CPROVER_is_fresh(out, sizeof(*out))) \
   __CPROVER_assigns(self->_cur, self->_line, self->_col, self->_hasError, self->_error, *out) POST ;
 #define IS_QUOTE(c) ((c) == (char)34 || (c) == (char)39)
-#define QUOTE_STARTS (OC < self->_input.n && IS_QUOTE(XML_AT(self, OC)))
+#define QUOTE_STARTS (OC < self->_input.n && IS_QUOTE(GOC))
 /* Q1 cursor; Q5 failure <=> error flag raised; Q6 no opening quote: failure, nothing consumed */
 #define RQV_SAFE ENS(XML_CUR_INV(self) && self->_cur >= OC) ENS(!RV ==> self->_hasError) ENS(RV ==> self->_hasError == OLD(self->_hasError)) \
                  ENS(!QUOTE_STARTS ==> (!RV && self->_cur == OC))
@@ -132,19 +147,19 @@ size_t GS;   /* arbitrary ghost position in the input: "for every position GS ..
                   ENS(RV ==> out->n <= self->_opt.maxTextSpan)
 /* Q3 closing quote == opening quote and it is the FIRST such quote; Q7 completeness: a terminated value within the limit is accepted
  * (GS plays any matching quote; the first one is <= GS) */
-#define RQV_CONTENT ENS(RV ==> XML_AT(self, self->_cur - 1) == XML_AT(self, OC)) \
-                    ENS((RV && GS > OC && GS < self->_cur - 1) ==> XML_AT(self, GS) != XML_AT(self, OC)) \
-                    ENS((QUOTE_STARTS && GS > OC && GS < self->_input.n && XML_AT(self, GS) == XML_AT(self, OC) && GS - OC - 1 <= self->_opt.maxTextSpan) ==> RV)
+#define RQV_CONTENT ENS((RV && GS == self->_cur - 1) ==> GSC == GOC) \
+                    ENS((RV && GS > OC && GS < self->_cur - 1) ==> GSC != GOC) \
+                    ENS((QUOTE_STARTS && GS > OC && GS < self->_input.n && GSC == GOC && GS - OC - 1 <= self->_opt.maxTextSpan) ==> RV)
 
 /* ---------------- readText ---------------- */
 /* precondition from the call site in next(): !eof() and the next byte is not '<' */
 #define DECL_readText(sym, POST) bool sym(Parser *self, size_t startOffset, size_t startLine, size_t startCol) \
-  __CPROVER_requires(XML_PRE(self) && NOT_EOF && XML_AT(self, self->_cur) != (char)60 && self->_producedTokens < (size_t)-1) \
+  __CPROVER_requires(XML_PRE(self) && NOT_EOF && GOC != (char)60 && self->_producedTokens < (size_t)-1) \
   __CPROVER_assigns(self->_cur, self->_line, self->_col, self->_hasError, self->_error, self->_token, self->_producedTokens) POST ;
 /* T1 cursor; T3 the span limit is tested BEFORE each step: never more than maxTextSpan bytes are taken;
  * T6 failure <=> error flag, and the only failure is the span limit; T7 token counter */
 #define RTEXT_SAFE ENS(XML_CUR_INV(self) && self->_cur >= OC) ENS(self->_cur - OC <= self->_opt.maxTextSpan) \
-                   ENS(!RV ==> (self->_hasError && self->_cur - OC == self->_opt.maxTextSpan && NOT_EOF && XML_AT(self, self->_cur) != (char)60)) \
+                   ENS(!RV ==> (self->_hasError && self->_cur - OC == self->_opt.maxTextSpan && NOT_EOF)) ENS((!RV && GS == self->_cur) ==> GSC != (char)60) \
                    ENS(RV ==> self->_hasError == OLD(self->_hasError)) \
                    ENS(self->_producedTokens == OLD(self->_producedTokens) + (RV ? 1 : 0))
 /* T2 slice containment: the Text token is exactly the consumed, non-empty input range; T5 token bookkeeping */
@@ -152,6 +167,6 @@ size_t GS;   /* arbitrary ghost position in the input: "for every position GS ..
                     ENS(RV ==> (self->_token.depth == self->_depth && self->_token.offset == startOffset && self->_token.line == startLine \
                          && self->_token.column == startCol && self->_token.name.n == 0 && self->_token.attributes.n == 0 && !self->_token.selfClosing))
 /* T4 the text contains no '<' and extends up to the next '<' or the end */
-#define RTEXT_CONTENT ENS((RV && GS >= OC && GS < self->_cur) ==> XML_AT(self, GS) != (char)60) \
-                      ENS(RV ==> (self->_cur == self->_input.n || XML_AT(self, self->_cur) == (char)60))
+#define RTEXT_CONTENT ENS((RV && GS >= OC && GS < self->_cur) ==> GSC != (char)60) \
+                      ENS((RV && GS == self->_cur && GS < self->_input.n) ==> GSC == (char)60)
 #endif
